@@ -240,6 +240,17 @@ def build_harness(flavour):
 
 # ------------------------------------------------------------ sharded execution
 
+def _big_stack():
+    # the extracted model is not tail-recursive everywhere (list append, splitN, unary fuel): inputs of a few hundred KB
+    # need more than the default 8 MB stack
+    import resource
+    try:
+        soft, hard = resource.getrlimit(resource.RLIMIT_STACK)
+        resource.setrlimit(resource.RLIMIT_STACK, (hard, hard))
+    except (ValueError, OSError):
+        pass
+
+
 def run_lines(exe, lines, shards=NPROC, timeout=3000, env=None):
     """Feed case lines to exe (one result line per case), sharded over processes."""
     if not lines:
@@ -249,7 +260,7 @@ def run_lines(exe, lines, shards=NPROC, timeout=3000, env=None):
 
     def work(chunk):
         p = subprocess.run([exe], input="\n".join(chunk) + "\n", stdout=subprocess.PIPE, stderr=subprocess.PIPE,
-                           text=True, timeout=timeout, env=env or ENV)
+                           text=True, timeout=timeout, env=env or ENV, preexec_fn=_big_stack)
         out = p.stdout.split("\n")
         if out and out[-1] == "":
             out.pop()
@@ -258,7 +269,7 @@ def run_lines(exe, lines, shards=NPROC, timeout=3000, env=None):
             res = []
             for c in chunk:
                 q = subprocess.run([exe], input=c + "\n", stdout=subprocess.PIPE, stderr=subprocess.PIPE, text=True,
-                                   timeout=timeout, env=env or ENV)
+                                   timeout=timeout, env=env or ENV, preexec_fn=_big_stack)
                 o = q.stdout.strip("\n")
                 res.append(o if (q.returncode == 0 and o != "" and "\n" not in o) else "CRASH rc=%s %s" % (q.returncode, q.stderr.strip()[-200:].replace("\n", " ")))
             return res
